@@ -33,6 +33,7 @@ CLAUSE = dict(ex="exit", rex="reexit", ren="reenter", en="enter")
 NACTS = 2                                   # acts per context per box, so declaration order is observable
 MAXDEPTH = 3
 NONE = (-1, -1, -1, -1)                     # cycle without transition
+FAILVALS = (False, None, 0, "")             # what a precondition that is not met may return (an unset value, an empty string, ...)
 INITFAIL = -2                               # (INITFAIL, -1, box, idx): precondition idx of box fails at the very first entry
 
 
@@ -273,7 +274,9 @@ class World:
 
         def logpre():
             self.log.append(entry)
-            return self.fail != (i, k)
+            if self.fail == (i, k):
+                return FAILVALS[(2 * i + k) % len(FAILVALS)]      # "not met" in one of its falsy spellings
+            return True
         return logpre
 
     def goact(self, i):
